@@ -336,7 +336,13 @@ def moment_spread(h):
     if weighted:
         w = h.vec('w', n)
         h.assume(' + '.join('w[%d]' % i for i in range(n)) + ' != 0', w=w)
-    r = h.call(h.get(F + '::moment'), x, w, order)
+    use_tol = h.choice('tol_given', [False, True]) if order >= 2 else False
+    tol = h.real('tol') if use_tol else 0
+    if use_tol:
+        h.assume('tol >= 0', tol=tol)
+        r = h.call(h.get(F + '::moment'), x, w, order, tol)
+    else:
+        r = h.call(h.get(F + '::moment'), x, w, order)
     wn = 'w' if weighted else None
     m = _mean('x', n, wn)
     if order == 0:
@@ -350,6 +356,12 @@ def moment_spread(h):
             spec = '((%s) / (%s))' % (' + '.join('%s * w[%d]' % (t, i) for i, t in enumerate(terms)), ' + '.join('w[%d]' % i for i in range(n)))
         else:
             spec = '((%s) / %d)' % (' + '.join(terms), n)
+        if use_tol:
+            # tol applies to the RESULT ("any mean <= tol is zero"), the deviations are taken about the true mean
+            if h.is_sym():
+                h.check('central-moment-about-the-true-mean-zeroed-only-when-within-tol',
+                        'r == (0 if abs(%s) <= tol else %s)' % (spec, spec), r=r, x=x, w=w, tol=tol)
+            return
         if h.is_sym():
             h.check('weighted-mean-of-the-powered-deviations', 'r == ' + spec, r=r, x=x, w=w)
         else:
